@@ -430,6 +430,8 @@ def build(reg, src):
     reg.fn(KV + '__setitem__', params=dict(x=FKey), setup=kv_setup, requires=[QK], returns=None,
            ensures=[QK, lambda s, r: And(s.g('os')[KP(s)] == VStr(SER(eng_as_obj(s.y))), s.g('os_ex')[KP(s)])])
 
+    from pyvc.leancheck import lean_check
+    reg.extra_checks.append(lean_check('MapSum.lean', ['msum_update', 'msum_term_le', 'nonneg_update', 'msum_empty', 'msum_nonneg']))
     from replay import c16 as rp
     reg.replays.append((r'.', rp.replay_kvs_generic))
 
